@@ -4,6 +4,7 @@ import (
 	"flag"
 	"fmt"
 	"os"
+	"runtime/pprof"
 
 	"verifharness/common"
 	"verifharness/conc"
@@ -40,6 +41,11 @@ func main() {
 	phase := fs.String("phase", "", "second phase of a two-phase check (race)")
 	fs.Parse(os.Args[2:])
 	seed := common.EnvSeed()
+	if pf := os.Getenv("VERIF_PPROF"); pf != "" {
+		f, _ := os.Create(pf)
+		pprof.StartCPUProfile(f)
+		defer pprof.StopCPUProfile()
+	}
 
 	if *replay != "" {
 		os.Exit(doReplay(prop, *replay))
@@ -47,7 +53,9 @@ func main() {
 	if *phase == "race" {
 		os.Exit(dispatchRace(prop, *tier, seed))
 	}
-	os.Exit(dispatch(prop, *tier, seed))
+	code := dispatch(prop, *tier, seed)
+	pprof.StopCPUProfile()
+	os.Exit(code)
 }
 
 func dispatch(prop, tier string, seed int64) int {
